@@ -65,11 +65,11 @@ pub(crate) fn append_entry_best_effort_v1(path: &Path, entry: &CompactionCheckpo
     #[cfg(rip_verif)]
     rip_kernel::verif::point("compidx.opened");
     let mut writer = BufWriter::new(file);
-    let Ok(line) = serde_json::to_string(entry) else {
+    let Ok(mut line) = serde_json::to_string(entry) else {
         return;
     };
+    line.push('\n');
     let _ = writer.write_all(line.as_bytes());
-    let _ = writer.write_all(b"\n");
     let _ = writer.flush();
     #[cfg(rip_verif)]
     rip_kernel::verif::point("compidx.flushed");
